@@ -200,6 +200,32 @@ type C02Carrier struct {
 	Pos     string  `json:"pos"`     // root | field | map | list
 	Network bool    `json:"network"`
 	Name    []byte  `json:"name"`
+	// Dup: every compound of the carried value that has entries gets its first name a second time (with a
+	// longer value) - well-formed bytes that a carrier must hand back unchanged
+	Dup bool `json:"dup_names,omitempty"`
+}
+
+// dupNames returns a copy of t in which each non-empty compound repeats its first name.
+func dupNames(t *rn.Tag) *rn.Tag {
+	n := *t
+	switch t.Type {
+	case rn.List:
+		n.L = nil
+		for _, e := range t.L {
+			n.L = append(n.L, dupNames(e))
+		}
+	case rn.Compound:
+		n.K, n.V = nil, nil
+		for i, e := range t.V {
+			n.K = append(n.K, t.K[i])
+			n.V = append(n.V, dupNames(e))
+		}
+		if len(t.K) > 0 {
+			n.K = append(n.K, t.K[0])
+			n.V = append(n.V, growTree(t.V[0]))
+		}
+	}
+	return &n
 }
 
 type rawHolder struct {
@@ -214,6 +240,9 @@ type dynHolder struct {
 }
 
 func c02CheckCarrier(c C02Carrier) *pbt.Violation {
+	if c.Dup && c.Pos != "map" { // (the map position is compared as a tree, which repeated names would blur)
+		c.Tree = dupNames(c.Tree)
+	}
 	// build the document around the carrier position
 	var root *rn.Tag
 	switch c.Pos {
@@ -308,12 +337,16 @@ var c02Car = pbt.Register(pbt.Prop[C02Carrier]{
 		if !c.Network {
 			c.Name = gen.Str(t, gen.TreeOpts{NoBigStr: true}, "rootname")
 		}
+		c.Dup = rapid.IntRange(0, 3).Draw(t, "dupnames") == 2
 		return c
 	},
 	Check: c02CheckCarrier,
 	Classify: func(c C02Carrier) (bool, []string, []byte) {
 		s := c.Tree.Stats()
 		labels := []string{"carrier_" + c.Carrier + "_" + c.Pos}
+		if c.Dup && c.Pos != "map" {
+			labels = append(labels, "carrier_document_with_repeated_names")
+		}
 		if s.EmptyList {
 			labels = append(labels, "carrier_empty_list")
 		}
